@@ -351,6 +351,7 @@ func (cm *Manager) ProcessActions(index types.ChainIndex) error {
 
 		revisionTxnSet := []types.V2Transaction{revisionTxn}
 		if _, err := cm.chain.AddV2PoolTransactions(basis, revisionTxnSet); err != nil {
+			cm.wallet.ReleaseInputs(nil, revisionTxnSet)
 			log.Error("failed to add transaction set to pool", zap.Error(err))
 			continue
 		}
@@ -402,6 +403,7 @@ func (cm *Manager) ProcessActions(index types.ChainIndex) error {
 		cm.wallet.SignV2Inputs(&resolutionTxn, []int{0})
 		resolutionTxnSet := []types.V2Transaction{setupTxn, resolutionTxn}
 		if _, err := cm.chain.AddV2PoolTransactions(basis, resolutionTxnSet); err != nil {
+			cm.wallet.ReleaseInputs(nil, resolutionTxnSet)
 			log.Error("failed to add resolution transaction to pool", zap.Error(err))
 			continue
 		}
